@@ -6,13 +6,13 @@ SCHEDULERS = ("eager", "rr")
 OPTS = dict(multi=True, p_single_group=0.3, alias=True, combiner=True, fsm=True, nested_methods=True, p_fresh=0.96)
 BOUNDS = {"quick": "exhaustive small family (2 transactions x call through {direct, alias, nonexclusive method, exclusive method, enable_call} in If/Else alternatives: 93 designs, plus 42 designs with two non-exclusive call sites of one exclusive method through the same / different Method objects) + 40 batches x 12 random designs (<=3 transactions + nested, <=5 methods, If/Elif/Else, sibling If, Switch, FSM, enable_call, aliases, combiners, nested bodies), "
                    "both schedulers where applicable; per design all inputs and all register states",
-          "thorough": "400 batches x 25 random designs, VERIF_SEED-seeded"}
+          "thorough": "1600 batches x 25 random designs, VERIF_SEED-seeded"}
 OUTSIDE = OUTSIDE_COMMON
 ASSUMES = ASSUMES_COMMON
 
 
 def configs(tier, seed):
-    return systematic_configs(SCHEDULERS) + batch_configs(tier, seed, 40, 400, 12 if tier == "quick" else 25, OPTS, SCHEDULERS)
+    return systematic_configs(SCHEDULERS) + batch_configs(tier, seed, 40, 1600, 12 if tier == "quick" else 25, OPTS, SCHEDULERS)
 
 
 def run(cfg, ctx):
